@@ -826,8 +826,12 @@ def init_config(target_dir):
     # Write settings.yaml
     settings_path = os.path.join(config_dir, 'settings.yaml')
     if not os.path.exists(settings_path):
-        with open(settings_path, 'w', encoding='utf-8') as f:
+        # Written under a temporary name first: an interrupted write must not leave a
+        # truncated settings.yaml that later runs take for the user's own and keep
+        tmp_path = settings_path + '.tmp'
+        with open(tmp_path, 'w', encoding='utf-8') as f:
             f.write(STARTER_SETTINGS.format(year=current_year))
+        os.replace(tmp_path, settings_path)
         files_created.append('config/settings.yaml')
     else:
         files_skipped.append('config/settings.yaml')
